@@ -498,8 +498,10 @@ fn cmd_run(args: &[String]) -> i32 {
         );
         return 2;
     }
+    let mut harness_errors = 0usize;
     if !agg.herrs.is_empty() {
         agg.herrs.sort_by(|a, b| (a.0.clone(), a.1).cmp(&(b.0.clone(), b.1)));
+        harness_errors = agg.herrs.len();
         for (s, i, e, p) in agg.herrs.iter().take(5) {
             eprintln!("HARNESS-ERROR stratum {s} execution {i}: {e}");
             if let Some(p) = p {
@@ -509,7 +511,11 @@ fn cmd_run(args: &[String]) -> i32 {
                 eprintln!("  plan written to {path}");
             }
         }
-        return 2;
+        if agg.herrs.len() > 5 {
+            eprintln!("HARNESS-ERROR ... and {} more", agg.herrs.len() - 5);
+        }
+        // a violation that replays from its file is reported all the same (below);
+        // without one the run ends with exit 2
     }
 
     // ---- violations: cluster, minimise, replay, report
@@ -667,6 +673,10 @@ fn cmd_run(args: &[String]) -> i32 {
         agg.reruns, agg.reruns_same
     );
     if violation_lines.is_empty() {
+        if harness_errors > 0 {
+            eprintln!("HARNESS-ERROR {harness_errors} executions could not be judged; nothing is concluded");
+            return 2;
+        }
         println!("C11 held on everything explored");
         0
     } else {
